@@ -171,8 +171,44 @@
                 !r ==> (exists|i: int| 0 <= i < x@.len() && call_ensures(f, ((&#[trigger] x@[i], &y@[i]),), false)),
     { unimplemented!() }
     // ---- where the candidates come from (uninterpreted: the token-level matcher is outside the verified set)
+    /// the candidates one rule yields for an instruction text (begin_match_with_rule; uninterpreted)
+    pub uninterp spec fn rule_candidates(defs: &ItemDefs, d: int, r: int, key: (Seq<char>, usize, usize)) -> Seq<InstructionMatch>;
+    /// RuledefMap::parse_prefix of the text and the five groups query_prefixed returns for it (uninterpreted here)
+    pub uninterp spec fn prefix_of(key: (Seq<char>, usize, usize)) -> RuledefMapPrefix;
+    pub uninterp spec fn map_group(m: &RuledefMap, prefix: RuledefMapPrefix, g: int) -> Seq<RuledefMapEntry>;
+    /// the candidates of the first n entries of a group, in order
+    pub open spec fn group_candidates(defs: &ItemDefs, key: (Seq<char>, usize, usize), entries: Seq<RuledefMapEntry>, n: int) -> Seq<InstructionMatch>
+        decreases n
+    {
+        if n <= 0 { Seq::empty() } else {
+            group_candidates(defs, key, entries, n - 1) + rule_candidates(defs, entries[n - 1].ruledef_ref.0 as int, entries[n - 1].rule_ref.0 as int, key)
+        }
+    }
+    /// the candidates of the first g groups: EVERY entry of EVERY group the index returns is tried
+    pub open spec fn groups_candidates(defs: &ItemDefs, key: (Seq<char>, usize, usize), g: int) -> Seq<InstructionMatch>
+        decreases g
+    {
+        if g <= 0 { Seq::empty() } else {
+            groups_candidates(defs, key, g - 1)
+                + group_candidates(defs, key, map_group(&defs.ruledef_map, prefix_of(key), g - 1), map_group(&defs.ruledef_map, prefix_of(key), g - 1).len() as int)
+        }
+    }
+    /// every entry the index returns names an existing rule of an existing ruledef
+    pub open spec fn index_entries_exist(defs: &ItemDefs, key: (Seq<char>, usize, usize)) -> bool {
+        forall|g: int, k: int| 0 <= g < 5 && 0 <= k < map_group(&defs.ruledef_map, prefix_of(key), g).len() ==> ({
+            let e = #[trigger] map_group(&defs.ruledef_map, prefix_of(key), g)[k];
+            e.ruledef_ref.0 < defs.ruledefs.defs@.len() && defs.ruledefs.defs@[e.ruledef_ref.0 as int] is Some
+            && e.rule_ref.0 < (defs.ruledefs.defs@[e.ruledef_ref.0 as int]->0).rules@.len()
+        })
+    }
+    /// ASSUMED data invariant of ItemDefs: ruledef_map was built from ruledefs (RuledefMap::build, U-rulemap:
+    /// every entry is filed while iterating the existing rules) and the rule tables are not changed afterwards
+    #[verifier::external_body]
+    pub proof fn axiom_index_holds_existing_rules(defs: &ItemDefs, key: (Seq<char>, usize, usize))
+        ensures index_entries_exist(defs, key)
+    {}
     /// the candidates the prefix index yields for an instruction text
-    pub uninterp spec fn map_candidates(defs: &ItemDefs, key: (Seq<char>, usize, usize)) -> Seq<InstructionMatch>;
+    pub open spec fn map_candidates(defs: &ItemDefs, key: (Seq<char>, usize, usize)) -> Seq<InstructionMatch> { groups_candidates(defs, key, 5) }
     /// the candidates one ruledef yields
     pub uninterp spec fn ruledef_candidates(defs: &ItemDefs, d: int, key: (Seq<char>, usize, usize)) -> Seq<InstructionMatch>;
     /// without the index: the candidates of every ruledef that is not a sub-ruledef, in declaration order
